@@ -87,7 +87,7 @@ def resolve(colors):
 # ----------------------------------------------------------------------------------------------
 # the real pipeline
 # ----------------------------------------------------------------------------------------------
-def pipeline(n, state, bonds=None, rich=False):
+def pipeline(n, state, bonds=None, rich=False, atom_order=None):
     """Run reader -> canonicalize -> serialize of the real code. Returns (g_in, g_canon, string)."""
     from tucan.canonicalization import canonicalize_molecule
     from tucan.io import graph_from_molfile_text
@@ -102,7 +102,7 @@ def pipeline(n, state, bonds=None, rich=False):
         btypes = [1 + (j % 4) for j in range(len(bonds))]
         text = G.render_v3000(n, resolve(colors), bonds, xs, chgs, btypes)
     else:
-        text = G.render_v3000(n, resolve(colors), bonds, xs)
+        text = G.render_v3000(n, resolve(colors), bonds, xs, atom_order=atom_order)
     g = graph_from_molfile_text(text)
     gc = canonicalize_molecule(g)
     s = serialize_molecule(gc)
@@ -272,6 +272,31 @@ def listing_variants(bonds, d):
 
 def _c01_listing(n, st, expect, d, vios, res):
     bonds = G.edges_of(n, st[1])
+    # atom lines listed in another order than their index values (indices and bonds unchanged)
+    orders = []
+    if n >= 2:
+        for k in range(n - 1):
+            o = list(range(n))
+            o[k], o[k + 1] = o[k + 1], o[k]
+            orders.append(o)
+        orders.append(list(range(n - 1, -1, -1)))
+        if n <= 4:
+            from itertools import permutations as _p
+            orders = [list(o) for o in _p(range(n)) if list(o) != list(range(n))]
+    for o in orders:
+        res["transitions"] += 1
+        try:
+            g, gc, s, text = pipeline(n, st, atom_order=o)
+        except Exception as ex:
+            vios.append((f"C01|atom-order-exc|{type(ex).__name__}", {
+                "kind": "e1", "n": n, "state": st, "atom_order": o, "summary": f"atom line order {o}: pipeline raised {ex!r}"}))
+            continue
+        res["exec"] += 1
+        res["listing_exec"] += 1
+        if s != expect:
+            vios.append(("C01|atom-order", {
+                "kind": "e1-listing", "n": n, "state": st, "atom_order": o, "molfile_b": text, "tucan_a": expect, "tucan_b": s,
+                "summary": f"atom line order {o} (same indices) changes the string: {expect!r} vs {s!r}"}))
     dd = -1 if len(bonds) <= 3 else d
     for l in listing_variants(bonds, dd):
         res["transitions"] += 1
